@@ -36,8 +36,14 @@ CONNECT_RULE = ("random scripts of 1-8 attempts {transport error, cancellation i
                 "MaxElapsedTime unset / 1 ns / 1 h; server retry values >= 0.9 s lead to cancellation inside OnRetry; plus a sweep: endings (EOF / error / "
                 "cancellation / a read error that wraps io.EOF) after every byte position of six short streams; corpus: D3 / D3b / D6 witnesses and C10 / C12 scenarios. "
                 "Every injected error (transport, validator verdict, reader, GetBody) is a value of a random character: plain, Temporary() true, Timeout() true, wrapping io.EOF / "
-                "io.ErrUnexpectedEOF / os.ErrDeadlineExceeded, *net.OpError around a wrapped io.EOF - projected by identity (errors.As on the harness's own type first), the model takes the "
-                "index as opaque. The Client has produced 0-2 other Connections before the one under test (NewConnection normalises the Client in place). A few scripts (12 quick / 100 thorough) "
+                "io.ErrUnexpectedEOF / os.ErrDeadlineExceeded, *net.OpError around a wrapped io.EOF, network errors as they really look (*net.OpError{Op:dial} around ECONNREFUSED, "
+                "*net.OpError{Op:read} around ECONNRESET, both also inside a *url.Error, *net.DNSError alone and inside a dial error), and errors that are / wrap / match (Is method, as "
+                "http.Client.Timeout's and a dialer's timeout errors do) context.DeadlineExceeded or context.Canceled while the request context is alive - projected by identity (errors.As on "
+                "the harness's own type first, == for the bare sentinels), the model takes the index as opaque; plus a sweep: every character at every site (transport, reader, validator, GetBody at "
+                "its first / second call) with every body kind, followed by two more attempts. The request context is of a random kind: WithCancel, WithCancelCause ended with a cause of its own "
+                "(one that wraps context.Canceled included), a WithCancel / WithValue / WithTimeoutCause child of such a context, a deadline with a cause that expires at the scripted instant "
+                "(a Context whose Err() turns context.DeadlineExceeded when the harness says so) or that passed before Connect (real WithDeadlineCause); plus a sweep: every kind ended at every "
+                "instant a script can name. Connect's return value counts as 'the context's error' only if it IS request.Context().Err() (==), never a cause or a look-alike. The Client has produced 0-2 other Connections before the one under test (NewConnection normalises the Client in place). A few scripts (12 quick / 100 thorough) "
                 "have slow attempts (RoundTrip and/or the end of the body sleep 1-3.5 ms) and waits of 1-16 ms that are really slept. One-sided timing observation on every script: for each "
                 "OnRetry call that is followed by a request, the monotonic time from the end of the call to the start of the RoundTrip is at least the duration handed to OnRetry (a timer never "
                 "fires early: cannot fail on timing); C12's oracle demands it. Non-trivial = distinct scripts (every one runs Connect on a real Connection).")
@@ -73,8 +79,8 @@ PROPS["C11"] = {
                    "interpreter in Read mode and checked on the real sse.Read over a scripted reader (family read_c11)."),
     "level_note": CLIENT_NOTE + CONNECT_NOTE,
     "rule": CONNECT_RULE + " Family read_c11: sse.Read over the same stream grammar with clean / erroneous endings, all chunkings, the end reported with or after the last "
-            "bytes, plus endings after every byte position of seven short streams; read errors of every character (see above: also values that wrap io.EOF / io.ErrUnexpectedEOF, "
-            "projected by identity); corpus: D3 / D3b witnesses.",
+            "bytes, plus endings (clean, and a read error of each character) after every byte position of seven short streams; read errors of every character (see above: also values "
+            "that wrap io.EOF / io.ErrUnexpectedEOF, network errors, context look-alikes, projected by identity); corpus: D3 / D3b witnesses.",
     "assumptions": ["events larger than the scanner buffer (bufio.ErrTooLong) are outside the streams generated here (C20)",
                     "the context is cancelled only at the instants a script can name: inside RoundTrip, inside Read, inside OnRetry before a wait >= 0.9 s"],
 }
